@@ -8,7 +8,7 @@ package activitypub
 // abstract components, so the oracle never parses a string.
 
 type vpIRIParts struct {
-	scheme int    // 0 https, 1 http, 2 HTTPS
+	scheme int    // 0 https, 1 http, 2 HTTPS, 3 ftp, 4 gemini
 	host   byte   // one of a b A B
 	port   int    // 0 none, 1 :80, 2 :81
 	segs   []byte // each one of a b A B
@@ -32,7 +32,7 @@ var vpABTab = func() (t [256]bool) {
 }()
 
 func (p vpIRIParts) String() string {
-	s := []string{"https", "http", "HTTPS"}[p.scheme] + "://" + string([]byte{p.host}) + ".ex" + []string{"", ":80", ":81"}[p.port]
+	s := []string{"https", "http", "HTTPS", "ftp", "gemini"}[p.scheme] + "://" + string([]byte{p.host}) + ".ex" + []string{"", ":80", ":81"}[p.port]
 	if p.dot == 2 {
 		s += "/x/.."
 	}
@@ -72,7 +72,8 @@ func vpFold(c byte) byte { return c | 0x20 }
 // vpAbstractEq is the oracle: same host (with port), same cleaned path ignoring case, same
 // multiset of query pairs, and the same scheme (ignoring case) when asked.
 func vpAbstractEq(a, b vpIRIParts, checkScheme bool) bool {
-	if checkScheme && (a.scheme == 1) != (b.scheme == 1) {
+	cls := []int{0, 1, 0, 2, 3}
+	if checkScheme && cls[a.scheme] != cls[b.scheme] {
 		return false
 	}
 	if vpFold(a.host) != vpFold(b.host) || a.port != b.port {
@@ -144,6 +145,14 @@ func vpH_C14_path() {
 	pa := vpIRIParts{host: 'h', segs: vpSegs(vpChoice(3)), trailing: vpBool(), dot: vpChoice(4)}
 	pb := vpIRIParts{host: 'h', segs: vpSegs(vpChoice(3)), trailing: vpBool()}
 	vpC14Laws(pa, pb, true)
+}
+
+// absolute URLs of other schemes are compared like the http ones (trailing slash, dot segments, case
+// of host and path; the scheme itself only when asked)
+func vpH_C14_other_schemes() {
+	pa := vpIRIParts{scheme: []int{3, 4, 0}[vpChoice(3)], host: vpLetterCase(), segs: vpSegs(1), trailing: vpBool(), dot: vpChoice(2)}
+	pb := vpIRIParts{scheme: []int{3, 4, 1}[vpChoice(3)], host: 'a', segs: vpSegs(1), trailing: vpBool()}
+	vpC14Laws(pa, pb, vpBool())
 }
 
 // host family: scheme, host case, port, with and without scheme comparison
